@@ -38,7 +38,7 @@ Lemma prefix_same : CodecDetect.prefix = codec_charset_prefix.
 Proof. reflexivity. Qed.
 
 Lemma charset_text_head n : exists tail, charset_text n = 64%N :: 99%N :: tail.
-Proof. rewrite charset_text_shape. eexists. reflexivity. Qed.
+Proof. unfold charset_text. eexists. reflexivity. Qed.
 
 Lemma enc_body_head encc c r x bc : enc_body_esc encc (c :: r) = Some x -> encc c = Some bc ->
   exists x', x = bc ++ x'.
@@ -49,8 +49,8 @@ Qed.
 
 Lemma ascii_name_noquote n : ascii_name n = true -> ~ In 34%N n.
 Proof.
-  intros H Hin. unfold ascii_name in H. rewrite forallb_forall in H. apply H in Hin.
-  apply andb_true_iff in Hin as [_ Hq]. discriminate.
+  intros H Hin. unfold ascii_name in H. rewrite forallb_forall in H. apply H, name_char_facts in Hin.
+  destruct Hin as (_ & Hq & _). discriminate.
 Qed.
 
 Theorem encoded_reparse_detects_lemma f encc bom e sh b :
@@ -64,7 +64,7 @@ Proof.
   - (* @charset rule *)
     destruct Hf as [-> Htr]. specialize (Hn eq_refl).
     destruct (charset_rule_first_lemma encc Htr e sh b Hn Hb) as [[r ->] _].
-    rewrite charset_text_shape, <- prefix_same, <- !app_assoc. cbn [app].
+    rewrite (charset_text_shape _ Hn), <- prefix_same, <- !app_assoc. cbn [app].
     apply charset_rule_detected. now apply ascii_name_noquote.
   - subst bom. unfold encode_esc in Hb. destruct (enc_body_esc encc _) as [x|]; [|discriminate]. injection Hb as <-.
     apply bom_utf8sig.
